@@ -1125,8 +1125,8 @@ func main() {
 			}
 			vv := b01(sch.ValidateJSON([]byte(js)).IsValid())
 			r := "-"
-			if hasKnownFormat(d) || hasCompositeMember(d) {
-				r = "~" // ToJSONSchema of the dedicated format schemas / of literals holding arrays or objects is outside the model
+			if hasKnownFormat(d) {
+				r = "~" // ToJSONSchema of the dedicated format schemas is outside the model
 			} else if rt != nil {
 				r = b01(rt.ValidateJSON([]byte(js)).IsValid())
 			}
